@@ -74,26 +74,32 @@ func (r *RedisError) IsNil() bool {
 
 // IsMoved checks if it is a redis MOVED message and returns the moved address.
 func (r *RedisError) IsMoved() (addr string, ok bool) {
-	if ok = strings.HasPrefix(r.string(), "MOVED"); ok {
-		addr = fixIPv6HostPort(strings.Split(r.string(), " ")[2])
+	if strings.HasPrefix(r.string(), "MOVED") {
+		if parts := strings.Split(r.string(), " "); len(parts) > 2 {
+			return fixIPv6HostPort(parts[2]), true
+		}
 	}
-	return
+	return "", false
 }
 
 // IsAsk checks if it is a redis ASK message and returns ask address.
 func (r *RedisError) IsAsk() (addr string, ok bool) {
-	if ok = strings.HasPrefix(r.string(), "ASK"); ok {
-		addr = fixIPv6HostPort(strings.Split(r.string(), " ")[2])
+	if strings.HasPrefix(r.string(), "ASK") {
+		if parts := strings.Split(r.string(), " "); len(parts) > 2 {
+			return fixIPv6HostPort(parts[2]), true
+		}
 	}
-	return
+	return "", false
 }
 
 // IsRedirect checks if it is a redis REDIRECT message and returns redirect address.
 func (r *RedisError) IsRedirect() (addr string, ok bool) {
-	if ok = strings.HasPrefix(r.string(), "REDIRECT"); ok {
-		addr = fixIPv6HostPort(strings.Split(r.string(), " ")[1])
+	if strings.HasPrefix(r.string(), "REDIRECT") {
+		if parts := strings.Split(r.string(), " "); len(parts) > 1 {
+			return fixIPv6HostPort(parts[1]), true
+		}
 	}
-	return
+	return "", false
 }
 
 func fixIPv6HostPort(addr string) string {
@@ -1022,7 +1028,7 @@ func (m *RedisMessage) AsXRead() (ret map[string][]XRangeEntry, err error) {
 	}
 	if m.IsMap() {
 		ret = make(map[string][]XRangeEntry, len(m.values())/2)
-		for i := 0; i < len(m.values()); i += 2 {
+		for i := 0; i+1 < len(m.values()); i += 2 {
 			if ret[m.values()[i].string()], err = m.values()[i+1].AsXRange(); err != nil {
 				return nil, err
 			}
@@ -1119,7 +1125,7 @@ func (m *RedisMessage) AsXReadSlices() (map[string][]XRangeSlice, error) {
 	var err error
 	if m.IsMap() {
 		ret = make(map[string][]XRangeSlice, len(m.values())/2)
-		for i := 0; i < len(m.values()); i += 2 {
+		for i := 0; i+1 < len(m.values()); i += 2 {
 			if ret[m.values()[i].string()], err = m.values()[i+1].AsXRangeSlices(); err != nil {
 				return nil, err
 			}
@@ -1320,7 +1326,7 @@ func (m *RedisMessage) AsFtSearch() (total int64, docs []FtSearchDoc, err error)
 		return 0, nil, err
 	}
 	if m.IsMap() {
-		for i := 0; i < len(m.values()); i += 2 {
+		for i := 0; i+1 < len(m.values()); i += 2 {
 			switch m.values()[i].string() {
 			case "total_results":
 				total = m.values()[i+1].intlen
@@ -1328,7 +1334,7 @@ func (m *RedisMessage) AsFtSearch() (total int64, docs []FtSearchDoc, err error)
 				records := m.values()[i+1].values()
 				docs = make([]FtSearchDoc, len(records))
 				for d, record := range records {
-					for j := 0; j < len(record.values()); j += 2 {
+					for j := 0; j+1 < len(record.values()); j += 2 {
 						switch record.values()[j].string() {
 						case "id":
 							docs[d].Key = record.values()[j+1].string()
@@ -1371,12 +1377,14 @@ func (m *RedisMessage) AsFtSearch() (total int64, docs []FtSearchDoc, err error)
 		for i := 1; i < len(m.values()); i++ {
 			doc := FtSearchDoc{Key: m.values()[i].string()}
 			if wscore {
-				i++
-				doc.Score, _ = strconv.ParseFloat(m.values()[i].string(), 64)
+				if i++; i < len(m.values()) {
+					doc.Score, _ = strconv.ParseFloat(m.values()[i].string(), 64)
+				}
 			}
 			if wattrs {
-				i++
-				doc.Doc, _ = m.values()[i].AsStrMap()
+				if i++; i < len(m.values()) {
+					doc.Doc, _ = m.values()[i].AsStrMap()
+				}
 			}
 			docs = append(docs, doc)
 		}
@@ -1391,7 +1399,7 @@ func (m *RedisMessage) AsFtAggregate() (total int64, docs []map[string]string, e
 		return 0, nil, err
 	}
 	if m.IsMap() {
-		for i := 0; i < len(m.values()); i += 2 {
+		for i := 0; i+1 < len(m.values()); i += 2 {
 			switch m.values()[i].string() {
 			case "total_results":
 				total = m.values()[i+1].intlen
@@ -1399,7 +1407,7 @@ func (m *RedisMessage) AsFtAggregate() (total int64, docs []map[string]string, e
 				records := m.values()[i+1].values()
 				docs = make([]map[string]string, len(records))
 				for d, record := range records {
-					for j := 0; j < len(record.values()); j += 2 {
+					for j := 0; j+1 < len(record.values()); j += 2 {
 						switch record.values()[j].string() {
 						case "extra_attributes":
 							docs[d], _ = record.values()[j+1].AsStrMap()
@@ -1454,6 +1462,10 @@ func (m *RedisMessage) AsGeosearch() ([]GeoLocation, error) {
 			loc.Name = v.string()
 		} else {
 			info := v.values()
+			if len(info) == 0 {
+				typ := v.typ
+				return nil, fmt.Errorf("%w: redis message type %s is not a GEOSEARCH location", errParse, typeNames[typ])
+			}
 			var i int
 
 			//name
@@ -1515,7 +1527,7 @@ func (m *RedisMessage) ToAny() (any, error) {
 		return m.intlen, nil
 	case typeMap:
 		vs := make(map[string]any, len(m.values())/2)
-		for i := 0; i < len(m.values()); i += 2 {
+		for i := 0; i+1 < len(m.values()); i += 2 {
 			if v, err := m.values()[i+1].ToAny(); err != nil && !IsRedisNil(err) {
 				vs[m.values()[i].string()] = err
 			} else {
@@ -1596,6 +1608,9 @@ func (m *RedisMessage) setExpireAt(pttl int64) {
 }
 
 func toMap(values []RedisMessage) (map[string]RedisMessage, error) {
+	if len(values)%2 != 0 {
+		return nil, fmt.Errorf("%w: redis map message has an odd number of elements", errParse)
+	}
 	r := make(map[string]RedisMessage, len(values)/2)
 	for i := 0; i < len(values); i += 2 {
 		if values[i].typ == typeBlobString || values[i].typ == typeSimpleString {
